@@ -21,7 +21,7 @@ RUNS = {"quick": 1000000, "thorough": 6000000}
 CHUNK = {"quick": 500, "thorough": 2000}
 PROBES = ["straddles_chunk", "overlapping", "at_offset_0", "at_eof", "limit_inside_occurrence", "leading_zero_needle",
           "needle_len_1", "artifact_hit", "artifact_overlap", "artifact_eof_cut", "artifact_maxrange", "start_none",
-          "needle_longer_than_chunk", "haystack_of_several_default_buffers", "defaults_left_out_of_the_call"]
+          "needle_longer_than_chunk", "haystack_of_several_default_buffers", "defaults_left_out_of_the_call", "artifact_image_of_several_64k"]
 RULE = ("seeded plans: haystack over a 1-3 symbol or random alphabet (len<=80; 2% of the plans use haystacks of 8-40 KiB with "
         "needles planted around the multiples of 8192 and of B, B from 2 to 20000), needle len 1-9 (incl. leading zero "
         "bytes, planted copies), chunk knob B in 1..12 or around len, start_offset in {None after seek, 0, k}, "
@@ -48,6 +48,8 @@ _GRID = {"quick": 8, "thorough": 10}
 
 def generate(rng, tier, index):
     r = rng.random()
+    if r < 0.0015:
+        return _gen_big_artifact(rng)
     if r < 0.25:
         return _gen_artifact(rng)
     if r < 0.27:
@@ -77,6 +79,34 @@ def _gen_big_needle(rng):
         scans.append({"start": start, "seek": seek, "max": mx})
     return {"kind": "needle", "hay": None, "hay_gen": {"seed": rng.getrandbits(24), "len": n, "plants": sorted(set(plants))},
             "needle": hx(needle), "B": B, "scans": scans}
+
+
+def _gen_big_artifact(rng):
+    """Images of several 64 KiB: headers planted around the multiples of 4096 / 8192 / 65536 (a scanner that works
+    block-wise has to carry the 4-byte windows across its block boundaries)."""
+    n = rng.choice([65536 + 40, 70000, 131072 + 64, rng.randint(65540, 140000)])
+    plants = []
+    for _ in range(rng.randint(1, 5)):
+        m = rng.choice([65536, 65536, 8192, 4096, 32768])
+        base = m * rng.randint(1, max(1, (n - 24) // m))
+        p_ = max(0, min(n - 24, base + rng.randint(-5, 2)))
+        plants.append([p_, rng.choice([0, 1, 5, 17, 40]), hx(bytes(rng.getrandbits(8) for _ in range(4)))])
+    plants.append([rng.randint(0, n - 24), 3, "00000000"])
+    return {"kind": "artifact", "image": None, "image_gen": {"seed": rng.getrandbits(24), "len": n, "plants": plants},
+            "start": rng.choice([0, 0, None]), "seek": 0, "maxrange": None, "B": 8192, "omit_defaults": rng.random() < 0.5}
+
+
+def _image_of(plan) -> bytes:
+    if plan.get("image") is not None:
+        return unhx(plan["image"])
+    from dst.storage.builder import prng_bytes
+    g = plan["image_gen"]
+    # filler dwords can never satisfy the self-referential check: every byte has its top bit set (values >= 0x80808080)
+    img = bytearray(b | 0x80 for b in prng_bytes(g["seed"], g["len"]))
+    for p_, size, key in g["plants"]:
+        hdr = struct.pack("<II", p_ + 16, size) + unhx(key) + bytes(8)
+        img[p_:p_ + len(hdr)] = hdr
+    return bytes(img[:g["len"]])
 
 
 def _hay_of(plan) -> bytes:
@@ -300,7 +330,10 @@ def ref_artifacts(img: bytes, start: int, maxrange):
 
 def _scan_artifact(res: Result, seam: IoSeam, plan: dict):
     from dissect.cobaltstrike.artifact import iter_artifactkit_payloads
-    img = unhx(plan["image"])
+    img = _image_of(plan)
+    if plan.get("image") is None:
+        res.probes["artifact_image_of_several_64k"] += 1
+        seam.budget.limit = 40 * len(img) + 200000
     fh = seam.file(img)
     fh.seek(plan["seek"])
     start = plan["start"]
@@ -336,7 +369,7 @@ def _scan_artifact(res: Result, seam: IoSeam, plan: dict):
         go, wo = [g[0] for g in got], [w[0] for w in want]
         kind = "offsets" if go != wo else "fields"
         res.violate(("C15", "artifact", kind),
-                    f"iter_artifactkit_payloads(image={img.hex()}, start={start}, seek={plan['seek']}, "
+                    f"iter_artifactkit_payloads(image={_hh(img)}, start={start}, seek={plan['seek']}, "
                     f"maxrange={plan['maxrange']}): offsets {go} vs reference {wo}; "
                     f"first differing entry: {next(((g, w) for g, w in zip(got, want) if g != w), None)}")
 
@@ -397,7 +430,10 @@ def candidates(plan: dict):
             if plan["scans"][i]["start"] is not None:
                 yield from core.shrink_int(plan, ["scans", i, "start"])
     elif plan["kind"] == "artifact":
-        yield from core.shrink_hex(plan, ["image"])
+        if plan.get("image") is not None:
+            yield from core.shrink_hex(plan, ["image"])
+        else:
+            yield from core.shrink_list(plan, ["image_gen", "plants"], min_len=1)
         yield from core.shrink_int(plan, ["seek"])
         if plan["start"] is not None:
             yield from core.shrink_int(plan, ["start"])
